@@ -174,23 +174,31 @@ theorem indexed_iff_unanswered (ls : List Label) (s : St) (h : run {} ls = some 
   have i := rinv_run ls rinv_init h
   exact ⟨i.keys, fun r k hk id => (i.ok r k hk).idx id⟩
 
-/-- **usable_write_reaches_transport.** While the connection is usable (not closing, reader and writer
-healthy) the response of a request parked at the write gate is handed to the transport. -/
-theorem usable_write_reaches_transport (s s' : St) (r : Nat) (k : ReqCore) (hk : s.cores[r]? = some k)
-    (hpc : k.pc = .w1) (husable : s.shuttingDown = false) (h : step s (.w1 (.resp r)) = some s') :
+/-- **response_reaches_transport_unless_writer_broken.** The response of a request parked at the write
+gate is handed to the transport whenever the writer is not known to be broken — also while the
+connection is shutting down (a graceful Close delivers the results of the handlers it lets finish). -/
+theorem response_reaches_transport_unless_writer_broken (s s' : St) (r : Nat) (k : ReqCore)
+    (hk : s.cores[r]? = some k) (hpc : k.pc = .w1) (hw : s.writeErr = false)
+    (h : step s (.w1 (.resp r)) = some s') :
     ∃ k', s'.cores[r]? = some k' ∧ k'.pc = .wr := by
   simp only [step, Option.map_eq_some_iff] at h
   obtain ⟨s0, h0, rfl⟩ := h
   simp only [step0, hk] at h0
-  have hg : gateOpen (modCore s r fun q => { q with wrote := q.wrote + 1 }) false = true := by
-    simp [gateOpen, St.shuttingDown, modCore] at husable ⊢; simp [St.shuttingDown, husable]
-  simp [hpc, hg] at h0
+  simp [hpc, hw] at h0
   subst h0
   have hc := congrArg ReqView.cores (reqView_settle
     (tail (modCore (modCore s r fun q => { q with wrote := q.wrote + 1 }) r fun q => { q with pc := .wr })))
   simp only [reqView, tail_cores] at hc
   refine ⟨{ k with wrote := k.wrote + 1, pc := .wr }, ?_, rfl⟩
   rw [hc]; simp [modCore, List.getElem?_modify, hk]
+
+/-- **usable_write_reaches_transport.** While the connection is usable (not closing, reader and writer
+healthy) the response of a request parked at the write gate is handed to the transport. -/
+theorem usable_write_reaches_transport (s s' : St) (r : Nat) (k : ReqCore) (hk : s.cores[r]? = some k)
+    (hpc : k.pc = .w1) (husable : s.shuttingDown = false) (h : step s (.w1 (.resp r)) = some s') :
+    ∃ k', s'.cores[r]? = some k' ∧ k'.pc = .wr := by
+  refine response_reaches_transport_unless_writer_broken s s' r k hk hpc ?_ h
+  simp [St.shuttingDown] at husable; simp [husable]
 
 /-! ## C05 — Close is graceful, terminates, leaves nothing running (safety part) -/
 
